@@ -53,6 +53,9 @@ impl<const K: usize> AffTree<K> {
 //@assumed units/pwl_schema.rs | division_schema_update_terminal
 
 //@include prelude/pruned_spec.rs
+//@include prelude/tol_spec.rs
+//@include prelude/wit_core_spec.rs
+//@include prelude/wit_prune_spec.rs
 
 // all terminals produce `od` components
 pub open spec fn out_all<const K: usize>(a: AArena<K>, od: usize) -> bool {
@@ -117,9 +120,14 @@ impl<const K: usize> AffTree<K> {
         final(rhs).tree.wf(), final(rhs).tree.root == old(rhs).tree.root, final(rhs).in_dim == old(rhs).in_dim,
         aff_shape_ok(final(rhs).a(), final(rhs).in_dim),
         pr_outer(lhs.a(), old(rhs).a(), final(rhs).a(), terminals@, terminals@.len() as int),
+        // C05 (caches through pruned tree arithmetic, whatever the feasibility oracle answers): witnesses that satisfied their path conditions up to 1e-8 before still do
+        wit_inv(old(rhs).a(), old(rhs).a()) ==> wit_inv(final(rhs).a(), final(rhs).a()),
 //@hint start
         let ghost rl = lhs.tree.root.unwrap();
-        proof { lemma_pr_outer_init(lhs.a(), rhs.a(), terminals@, od); }
+        let ghost mut wset: Set<usize> = rhs.a().dom();
+        proof { lemma_pr_outer_init(lhs.a(), rhs.a(), terminals@, od); lemma_gi_init(rhs.a()); }
+//@hint loop 1 after
+        proof { if wit_inv(old(rhs).a(), old(rhs).a()) { lemma_gi_final(old(rhs).a(), rhs.a(), wset); } }
 //@loop 1
             invariant
                 K >= 2, K < usize::MAX, k_two::<K>(), lhs.tree.wf(), lhs.tree.root is Some, aff_shape_ok(lhs.a(), lhs.in_dim),
@@ -127,6 +135,7 @@ impl<const K: usize> AffTree<K> {
                 0 <= __t <= terminals@.len(), rl == lhs.tree.root.unwrap(), lhs.in_dim == rhs.in_dim, out_all(lhs.a(), od),
                 rhs.tree.wf(), rhs.tree.root == Some(0usize), rhs.in_dim == old(rhs).in_dim, aff_shape_ok(rhs.a(), rhs.in_dim),
                 pr_outer(lhs.a(), old(rhs).a(), rhs.a(), terminals@, __t as int),
+                old(rhs).tree.wf(), gi_inv(old(rhs).a(), rhs.a(), wset),
 //@hint loop 1 start
             let ghost a_start = rhs.a();
             proof { lemma_pr_pick(lhs.a(), old(rhs).a(), a_start, terminals@, __t as int, od, rhs.in_dim); }
@@ -137,6 +146,7 @@ impl<const K: usize> AffTree<K> {
                 broadcast use axiom_array2_shape;
                 lemma_pr_start(lhs.a(), a_start, rhs.a(), rl, terminal_idx, rhs.in_dim);
                 lemma_shape_write(a_start, rhs.a(), rhs.in_dim, terminal_idx);
+                lemma_gi_update(old(rhs).a(), a_start, rhs.a(), wset, terminal_idx);
             }
 //@loop 2
                 invariant
@@ -148,6 +158,7 @@ impl<const K: usize> AffTree<K> {
                     terminal_aff.ok(), terminal_aff.mat.ncols() == rhs.in_dim, terminal_aff.mat.nrows() == od, lhs.in_dim == rhs.in_dim, out_all(lhs.a(), od),
                     pr_inv(lhs.a(), rhs.a(), a_start, kind, pend, None, terminal_idx, rhs.in_dim), pr_stack(kind, pend, stack@),
                     shape_op(rhs.a(), rhs.in_dim),
+                    old(rhs).tree.wf(), gi_inv(old(rhs).a(), rhs.a(), wset),
                 ensures stack@.len() == 0,
 //@hint loop 2 start
                 proof {
@@ -157,6 +168,7 @@ impl<const K: usize> AffTree<K> {
                     lemma_kid_seq_members(lhs.a()[parent0_idx].children, 0);
                     lemma_count_zero_no_kids(rhs.a()[parent1_idx], 0);
                     if !no_kids(lhs.a()[parent0_idx]) { lemma_rows_fit(lhs.a(), lhs.in_dim, parent0_idx, rhs.a()[parent1_idx].value.aff.mat.nrows() as int); }
+                    lemma_gi_notdec(old(rhs).a(), rhs.a(), wset, parent1_idx);
                 }
                 let ghost p1_val = rhs.a()[parent1_idx].value;
 //@loop 3
@@ -171,6 +183,7 @@ impl<const K: usize> AffTree<K> {
                         kind.dom().contains(parent1_idx), kind[parent1_idx] == parent0_idx, !pend.contains(parent1_idx),
                         shape_op(rhs.a(), rhs.in_dim), rhs.a()[parent1_idx].value == p1_val, !no_kids(lhs.a()[parent0_idx]) ==> rows_fit::<K>(p1_val.aff.mat.nrows() as int),
                         lhs.a().dom().contains(parent0_idx), rhs.a().dom().contains(parent1_idx),
+                        old(rhs).tree.wf(), gi_inv(old(rhs).a(), rhs.a(), wset), gi_notdec(old(rhs).a(), parent1_idx),
                         0 <= __i <= __kids@.len(), __kids@.len() == kid_seq(lhs.a()[parent0_idx].children, 0).len(), __kids@.len() <= K,
                         n_children0 == __kids@.len(),
                         forall|j: int| 0 <= j < __kids@.len() ==> (#[trigger] __kids@[j]).source_idx == parent0_idx
@@ -202,6 +215,7 @@ impl<const K: usize> AffTree<K> {
                         lemma_count_set(a_pre[parent1_idx].children, a_add[parent1_idx].children, label as int, 0);
                         // the tree handed to the feasibility test is shape-consistent (needed by the real path polytope)
                         lemma_shape_add(a_pre, a_add, rhs.in_dim, parent1_idx, label, child1_idx);
+                        lemma_gi_add(old(rhs).a(), a_pre, a_add, wset, parent1_idx, label, child1_idx);
                     }
 //@hint after label_created = Some(label);
                         proof {
@@ -220,6 +234,8 @@ impl<const K: usize> AffTree<K> {
                         lemma_pr_merge(lhs.a(), a_fin, rhs.a(), a_start, kind, pend, terminal_idx, rhs.in_dim, stack@, parent1_idx, label_created.unwrap(), Some(0usize));
                         lemma_shape_merge(a_fin, rhs.a(), rhs.in_dim, parent1_idx, label_created.unwrap());
                         kind = kind.remove(parent1_idx);
+                        lemma_gi_merge(old(rhs).a(), a_fin, rhs.a(), wset, parent1_idx, label_created.unwrap(), false);
+                        wset = wset.remove(parent1_idx);
                     }
 //@hint loop 3 after
                 let ghost a_fin = rhs.a();
@@ -256,6 +272,8 @@ impl<const K: usize> AffTree<K> {
         self.in_dim == rhs.in_dim, out_all(self.a(), od), out_all(rhs.a(), od),
     ensures
         r.tree.wf(), r.tree.root == Some(0usize), r.in_dim == self.in_dim, aff_shape_ok(r.a(), r.in_dim), out_all(r.a(), od),
+        // C05: cached witnesses of the receiving operand that were right stay right (copied nodes start without cache)
+        wit_inv(self.a(), self.a()) ==> wit_inv(r.a(), r.a()),
 //@hint start
         proof { reveal(pr_outer); }
 //@end
@@ -297,9 +315,14 @@ impl<const K: usize> AffTree<K> {
         final(rhs).tree.wf(), final(rhs).tree.root == old(rhs).tree.root, final(rhs).in_dim == old(rhs).in_dim,
         aff_shape_ok(final(rhs).a(), final(rhs).in_dim),
         pr_outer(lhs.a(), old(rhs).a(), final(rhs).a(), terminals@, terminals@.len() as int),
+        // C05 (caches through pruned tree arithmetic, whatever the feasibility oracle answers): witnesses that satisfied their path conditions up to 1e-8 before still do
+        wit_inv(old(rhs).a(), old(rhs).a()) ==> wit_inv(final(rhs).a(), final(rhs).a()),
 //@hint start
         let ghost rl = lhs.tree.root.unwrap();
-        proof { lemma_pr_outer_init(lhs.a(), rhs.a(), terminals@, od); }
+        let ghost mut wset: Set<usize> = rhs.a().dom();
+        proof { lemma_pr_outer_init(lhs.a(), rhs.a(), terminals@, od); lemma_gi_init(rhs.a()); }
+//@hint loop 1 after
+        proof { if wit_inv(old(rhs).a(), old(rhs).a()) { lemma_gi_final(old(rhs).a(), rhs.a(), wset); } }
 //@loop 1
             invariant
                 K >= 2, K < usize::MAX, k_two::<K>(), lhs.tree.wf(), lhs.tree.root is Some, aff_shape_ok(lhs.a(), lhs.in_dim),
@@ -307,6 +330,7 @@ impl<const K: usize> AffTree<K> {
                 0 <= __t <= terminals@.len(), rl == lhs.tree.root.unwrap(), lhs.in_dim == rhs.in_dim, out_all(lhs.a(), od),
                 rhs.tree.wf(), rhs.tree.root == Some(0usize), rhs.in_dim == old(rhs).in_dim, aff_shape_ok(rhs.a(), rhs.in_dim),
                 pr_outer(lhs.a(), old(rhs).a(), rhs.a(), terminals@, __t as int),
+                old(rhs).tree.wf(), gi_inv(old(rhs).a(), rhs.a(), wset),
 //@hint loop 1 start
             let ghost a_start = rhs.a();
             proof { lemma_pr_pick(lhs.a(), old(rhs).a(), a_start, terminals@, __t as int, od, rhs.in_dim); }
@@ -317,6 +341,7 @@ impl<const K: usize> AffTree<K> {
                 broadcast use axiom_array2_shape;
                 lemma_pr_start(lhs.a(), a_start, rhs.a(), rl, terminal_idx, rhs.in_dim);
                 lemma_shape_write(a_start, rhs.a(), rhs.in_dim, terminal_idx);
+                lemma_gi_update(old(rhs).a(), a_start, rhs.a(), wset, terminal_idx);
             }
 //@loop 2
                 invariant
@@ -328,6 +353,7 @@ impl<const K: usize> AffTree<K> {
                     terminal_aff.ok(), terminal_aff.mat.ncols() == rhs.in_dim, terminal_aff.mat.nrows() == od, lhs.in_dim == rhs.in_dim, out_all(lhs.a(), od),
                     pr_inv(lhs.a(), rhs.a(), a_start, kind, pend, None, terminal_idx, rhs.in_dim), pr_stack(kind, pend, stack@),
                     shape_op(rhs.a(), rhs.in_dim),
+                    old(rhs).tree.wf(), gi_inv(old(rhs).a(), rhs.a(), wset),
                 ensures stack@.len() == 0,
 //@hint loop 2 start
                 proof {
@@ -337,6 +363,7 @@ impl<const K: usize> AffTree<K> {
                     lemma_kid_seq_members(lhs.a()[parent0_idx].children, 0);
                     lemma_count_zero_no_kids(rhs.a()[parent1_idx], 0);
                     if !no_kids(lhs.a()[parent0_idx]) { lemma_rows_fit(lhs.a(), lhs.in_dim, parent0_idx, rhs.a()[parent1_idx].value.aff.mat.nrows() as int); }
+                    lemma_gi_notdec(old(rhs).a(), rhs.a(), wset, parent1_idx);
                 }
                 let ghost p1_val = rhs.a()[parent1_idx].value;
 //@loop 3
@@ -351,6 +378,7 @@ impl<const K: usize> AffTree<K> {
                         kind.dom().contains(parent1_idx), kind[parent1_idx] == parent0_idx, !pend.contains(parent1_idx),
                         shape_op(rhs.a(), rhs.in_dim), rhs.a()[parent1_idx].value == p1_val, !no_kids(lhs.a()[parent0_idx]) ==> rows_fit::<K>(p1_val.aff.mat.nrows() as int),
                         lhs.a().dom().contains(parent0_idx), rhs.a().dom().contains(parent1_idx),
+                        old(rhs).tree.wf(), gi_inv(old(rhs).a(), rhs.a(), wset), gi_notdec(old(rhs).a(), parent1_idx),
                         0 <= __i <= __kids@.len(), __kids@.len() == kid_seq(lhs.a()[parent0_idx].children, 0).len(), __kids@.len() <= K,
                         n_children0 == __kids@.len(),
                         forall|j: int| 0 <= j < __kids@.len() ==> (#[trigger] __kids@[j]).source_idx == parent0_idx
@@ -382,6 +410,7 @@ impl<const K: usize> AffTree<K> {
                         lemma_count_set(a_pre[parent1_idx].children, a_add[parent1_idx].children, label as int, 0);
                         // the tree handed to the feasibility test is shape-consistent (needed by the real path polytope)
                         lemma_shape_add(a_pre, a_add, rhs.in_dim, parent1_idx, label, child1_idx);
+                        lemma_gi_add(old(rhs).a(), a_pre, a_add, wset, parent1_idx, label, child1_idx);
                     }
 //@hint after label_created = Some(label);
                         proof {
@@ -400,6 +429,8 @@ impl<const K: usize> AffTree<K> {
                         lemma_pr_merge(lhs.a(), a_fin, rhs.a(), a_start, kind, pend, terminal_idx, rhs.in_dim, stack@, parent1_idx, label_created.unwrap(), Some(0usize));
                         lemma_shape_merge(a_fin, rhs.a(), rhs.in_dim, parent1_idx, label_created.unwrap());
                         kind = kind.remove(parent1_idx);
+                        lemma_gi_merge(old(rhs).a(), a_fin, rhs.a(), wset, parent1_idx, label_created.unwrap(), false);
+                        wset = wset.remove(parent1_idx);
                     }
 //@hint loop 3 after
                 let ghost a_fin = rhs.a();
@@ -436,6 +467,8 @@ impl<const K: usize> AffTree<K> {
         self.in_dim == rhs.in_dim, out_all(self.a(), od), out_all(rhs.a(), od),
     ensures
         r.tree.wf(), r.tree.root == Some(0usize), r.in_dim == self.in_dim, aff_shape_ok(r.a(), r.in_dim), out_all(r.a(), od),
+        // C05: cached witnesses of the receiving operand that were right stay right (copied nodes start without cache)
+        wit_inv(self.a(), self.a()) ==> wit_inv(r.a(), r.a()),
 //@hint start
         proof { reveal(pr_outer); }
 //@end
@@ -477,9 +510,14 @@ impl<const K: usize> AffTree<K> {
         final(rhs).tree.wf(), final(rhs).tree.root == old(rhs).tree.root, final(rhs).in_dim == old(rhs).in_dim,
         aff_shape_ok(final(rhs).a(), final(rhs).in_dim),
         pr_outer(lhs.a(), old(rhs).a(), final(rhs).a(), terminals@, terminals@.len() as int),
+        // C05 (caches through pruned tree arithmetic, whatever the feasibility oracle answers): witnesses that satisfied their path conditions up to 1e-8 before still do
+        wit_inv(old(rhs).a(), old(rhs).a()) ==> wit_inv(final(rhs).a(), final(rhs).a()),
 //@hint start
         let ghost rl = lhs.tree.root.unwrap();
-        proof { lemma_pr_outer_init(lhs.a(), rhs.a(), terminals@, od); }
+        let ghost mut wset: Set<usize> = rhs.a().dom();
+        proof { lemma_pr_outer_init(lhs.a(), rhs.a(), terminals@, od); lemma_gi_init(rhs.a()); }
+//@hint loop 1 after
+        proof { if wit_inv(old(rhs).a(), old(rhs).a()) { lemma_gi_final(old(rhs).a(), rhs.a(), wset); } }
 //@loop 1
             invariant
                 K >= 2, K < usize::MAX, k_two::<K>(), lhs.tree.wf(), lhs.tree.root is Some, aff_shape_ok(lhs.a(), lhs.in_dim),
@@ -487,6 +525,7 @@ impl<const K: usize> AffTree<K> {
                 0 <= __t <= terminals@.len(), rl == lhs.tree.root.unwrap(), lhs.in_dim == rhs.in_dim, out_all(lhs.a(), od),
                 rhs.tree.wf(), rhs.tree.root == Some(0usize), rhs.in_dim == old(rhs).in_dim, aff_shape_ok(rhs.a(), rhs.in_dim),
                 pr_outer(lhs.a(), old(rhs).a(), rhs.a(), terminals@, __t as int),
+                old(rhs).tree.wf(), gi_inv(old(rhs).a(), rhs.a(), wset),
 //@hint loop 1 start
             let ghost a_start = rhs.a();
             proof { lemma_pr_pick(lhs.a(), old(rhs).a(), a_start, terminals@, __t as int, od, rhs.in_dim); }
@@ -497,6 +536,7 @@ impl<const K: usize> AffTree<K> {
                 broadcast use axiom_array2_shape;
                 lemma_pr_start(lhs.a(), a_start, rhs.a(), rl, terminal_idx, rhs.in_dim);
                 lemma_shape_write(a_start, rhs.a(), rhs.in_dim, terminal_idx);
+                lemma_gi_update(old(rhs).a(), a_start, rhs.a(), wset, terminal_idx);
             }
 //@loop 2
                 invariant
@@ -508,6 +548,7 @@ impl<const K: usize> AffTree<K> {
                     terminal_aff.ok(), terminal_aff.mat.ncols() == rhs.in_dim, terminal_aff.mat.nrows() == od, lhs.in_dim == rhs.in_dim, out_all(lhs.a(), od),
                     pr_inv(lhs.a(), rhs.a(), a_start, kind, pend, None, terminal_idx, rhs.in_dim), pr_stack(kind, pend, stack@),
                     shape_op(rhs.a(), rhs.in_dim),
+                    old(rhs).tree.wf(), gi_inv(old(rhs).a(), rhs.a(), wset),
                 ensures stack@.len() == 0,
 //@hint loop 2 start
                 proof {
@@ -517,6 +558,7 @@ impl<const K: usize> AffTree<K> {
                     lemma_kid_seq_members(lhs.a()[parent0_idx].children, 0);
                     lemma_count_zero_no_kids(rhs.a()[parent1_idx], 0);
                     if !no_kids(lhs.a()[parent0_idx]) { lemma_rows_fit(lhs.a(), lhs.in_dim, parent0_idx, rhs.a()[parent1_idx].value.aff.mat.nrows() as int); }
+                    lemma_gi_notdec(old(rhs).a(), rhs.a(), wset, parent1_idx);
                 }
                 let ghost p1_val = rhs.a()[parent1_idx].value;
 //@loop 3
@@ -531,6 +573,7 @@ impl<const K: usize> AffTree<K> {
                         kind.dom().contains(parent1_idx), kind[parent1_idx] == parent0_idx, !pend.contains(parent1_idx),
                         shape_op(rhs.a(), rhs.in_dim), rhs.a()[parent1_idx].value == p1_val, !no_kids(lhs.a()[parent0_idx]) ==> rows_fit::<K>(p1_val.aff.mat.nrows() as int),
                         lhs.a().dom().contains(parent0_idx), rhs.a().dom().contains(parent1_idx),
+                        old(rhs).tree.wf(), gi_inv(old(rhs).a(), rhs.a(), wset), gi_notdec(old(rhs).a(), parent1_idx),
                         0 <= __i <= __kids@.len(), __kids@.len() == kid_seq(lhs.a()[parent0_idx].children, 0).len(), __kids@.len() <= K,
                         n_children0 == __kids@.len(),
                         forall|j: int| 0 <= j < __kids@.len() ==> (#[trigger] __kids@[j]).source_idx == parent0_idx
@@ -562,6 +605,7 @@ impl<const K: usize> AffTree<K> {
                         lemma_count_set(a_pre[parent1_idx].children, a_add[parent1_idx].children, label as int, 0);
                         // the tree handed to the feasibility test is shape-consistent (needed by the real path polytope)
                         lemma_shape_add(a_pre, a_add, rhs.in_dim, parent1_idx, label, child1_idx);
+                        lemma_gi_add(old(rhs).a(), a_pre, a_add, wset, parent1_idx, label, child1_idx);
                     }
 //@hint after label_created = Some(label);
                         proof {
@@ -580,6 +624,8 @@ impl<const K: usize> AffTree<K> {
                         lemma_pr_merge(lhs.a(), a_fin, rhs.a(), a_start, kind, pend, terminal_idx, rhs.in_dim, stack@, parent1_idx, label_created.unwrap(), Some(0usize));
                         lemma_shape_merge(a_fin, rhs.a(), rhs.in_dim, parent1_idx, label_created.unwrap());
                         kind = kind.remove(parent1_idx);
+                        lemma_gi_merge(old(rhs).a(), a_fin, rhs.a(), wset, parent1_idx, label_created.unwrap(), false);
+                        wset = wset.remove(parent1_idx);
                     }
 //@hint loop 3 after
                 let ghost a_fin = rhs.a();
@@ -616,6 +662,8 @@ impl<const K: usize> AffTree<K> {
         self.in_dim == rhs.in_dim, out_all(self.a(), od), out_all(rhs.a(), od),
     ensures
         r.tree.wf(), r.tree.root == Some(0usize), r.in_dim == self.in_dim, aff_shape_ok(r.a(), r.in_dim), out_all(r.a(), od),
+        // C05: cached witnesses of the receiving operand that were right stay right (copied nodes start without cache)
+        wit_inv(self.a(), self.a()) ==> wit_inv(r.a(), r.a()),
 //@hint start
         proof { reveal(pr_outer); }
 //@end
@@ -657,9 +705,14 @@ impl<const K: usize> AffTree<K> {
         final(rhs).tree.wf(), final(rhs).tree.root == old(rhs).tree.root, final(rhs).in_dim == old(rhs).in_dim,
         aff_shape_ok(final(rhs).a(), final(rhs).in_dim),
         pr_outer(lhs.a(), old(rhs).a(), final(rhs).a(), terminals@, terminals@.len() as int),
+        // C05 (caches through pruned tree arithmetic, whatever the feasibility oracle answers): witnesses that satisfied their path conditions up to 1e-8 before still do
+        wit_inv(old(rhs).a(), old(rhs).a()) ==> wit_inv(final(rhs).a(), final(rhs).a()),
 //@hint start
         let ghost rl = lhs.tree.root.unwrap();
-        proof { lemma_pr_outer_init(lhs.a(), rhs.a(), terminals@, od); }
+        let ghost mut wset: Set<usize> = rhs.a().dom();
+        proof { lemma_pr_outer_init(lhs.a(), rhs.a(), terminals@, od); lemma_gi_init(rhs.a()); }
+//@hint loop 1 after
+        proof { if wit_inv(old(rhs).a(), old(rhs).a()) { lemma_gi_final(old(rhs).a(), rhs.a(), wset); } }
 //@loop 1
             invariant
                 K >= 2, K < usize::MAX, k_two::<K>(), lhs.tree.wf(), lhs.tree.root is Some, aff_shape_ok(lhs.a(), lhs.in_dim),
@@ -667,6 +720,7 @@ impl<const K: usize> AffTree<K> {
                 0 <= __t <= terminals@.len(), rl == lhs.tree.root.unwrap(), lhs.in_dim == rhs.in_dim, out_all(lhs.a(), od), nonzero_leaves(lhs.a()),
                 rhs.tree.wf(), rhs.tree.root == Some(0usize), rhs.in_dim == old(rhs).in_dim, aff_shape_ok(rhs.a(), rhs.in_dim),
                 pr_outer(lhs.a(), old(rhs).a(), rhs.a(), terminals@, __t as int),
+                old(rhs).tree.wf(), gi_inv(old(rhs).a(), rhs.a(), wset),
 //@hint loop 1 start
             let ghost a_start = rhs.a();
             proof { lemma_pr_pick(lhs.a(), old(rhs).a(), a_start, terminals@, __t as int, od, rhs.in_dim); }
@@ -677,6 +731,7 @@ impl<const K: usize> AffTree<K> {
                 broadcast use axiom_array2_shape;
                 lemma_pr_start(lhs.a(), a_start, rhs.a(), rl, terminal_idx, rhs.in_dim);
                 lemma_shape_write(a_start, rhs.a(), rhs.in_dim, terminal_idx);
+                lemma_gi_update(old(rhs).a(), a_start, rhs.a(), wset, terminal_idx);
             }
 //@loop 2
                 invariant
@@ -688,6 +743,7 @@ impl<const K: usize> AffTree<K> {
                     terminal_aff.ok(), terminal_aff.mat.ncols() == rhs.in_dim, terminal_aff.mat.nrows() == od, lhs.in_dim == rhs.in_dim, out_all(lhs.a(), od), nonzero_leaves(lhs.a()),
                     pr_inv(lhs.a(), rhs.a(), a_start, kind, pend, None, terminal_idx, rhs.in_dim), pr_stack(kind, pend, stack@),
                     shape_op(rhs.a(), rhs.in_dim),
+                    old(rhs).tree.wf(), gi_inv(old(rhs).a(), rhs.a(), wset),
                 ensures stack@.len() == 0,
 //@hint loop 2 start
                 proof {
@@ -697,6 +753,7 @@ impl<const K: usize> AffTree<K> {
                     lemma_kid_seq_members(lhs.a()[parent0_idx].children, 0);
                     lemma_count_zero_no_kids(rhs.a()[parent1_idx], 0);
                     if !no_kids(lhs.a()[parent0_idx]) { lemma_rows_fit(lhs.a(), lhs.in_dim, parent0_idx, rhs.a()[parent1_idx].value.aff.mat.nrows() as int); }
+                    lemma_gi_notdec(old(rhs).a(), rhs.a(), wset, parent1_idx);
                 }
                 let ghost p1_val = rhs.a()[parent1_idx].value;
 //@loop 3
@@ -711,6 +768,7 @@ impl<const K: usize> AffTree<K> {
                         kind.dom().contains(parent1_idx), kind[parent1_idx] == parent0_idx, !pend.contains(parent1_idx),
                         shape_op(rhs.a(), rhs.in_dim), rhs.a()[parent1_idx].value == p1_val, !no_kids(lhs.a()[parent0_idx]) ==> rows_fit::<K>(p1_val.aff.mat.nrows() as int),
                         lhs.a().dom().contains(parent0_idx), rhs.a().dom().contains(parent1_idx),
+                        old(rhs).tree.wf(), gi_inv(old(rhs).a(), rhs.a(), wset), gi_notdec(old(rhs).a(), parent1_idx),
                         0 <= __i <= __kids@.len(), __kids@.len() == kid_seq(lhs.a()[parent0_idx].children, 0).len(), __kids@.len() <= K,
                         n_children0 == __kids@.len(),
                         forall|j: int| 0 <= j < __kids@.len() ==> (#[trigger] __kids@[j]).source_idx == parent0_idx
@@ -742,6 +800,7 @@ impl<const K: usize> AffTree<K> {
                         lemma_count_set(a_pre[parent1_idx].children, a_add[parent1_idx].children, label as int, 0);
                         // the tree handed to the feasibility test is shape-consistent (needed by the real path polytope)
                         lemma_shape_add(a_pre, a_add, rhs.in_dim, parent1_idx, label, child1_idx);
+                        lemma_gi_add(old(rhs).a(), a_pre, a_add, wset, parent1_idx, label, child1_idx);
                     }
 //@hint after label_created = Some(label);
                         proof {
@@ -760,6 +819,8 @@ impl<const K: usize> AffTree<K> {
                         lemma_pr_merge(lhs.a(), a_fin, rhs.a(), a_start, kind, pend, terminal_idx, rhs.in_dim, stack@, parent1_idx, label_created.unwrap(), Some(0usize));
                         lemma_shape_merge(a_fin, rhs.a(), rhs.in_dim, parent1_idx, label_created.unwrap());
                         kind = kind.remove(parent1_idx);
+                        lemma_gi_merge(old(rhs).a(), a_fin, rhs.a(), wset, parent1_idx, label_created.unwrap(), false);
+                        wset = wset.remove(parent1_idx);
                     }
 //@hint loop 3 after
                 let ghost a_fin = rhs.a();
@@ -796,6 +857,8 @@ impl<const K: usize> AffTree<K> {
         self.in_dim == rhs.in_dim, out_all(self.a(), od), out_all(rhs.a(), od), nonzero_leaves(rhs.a()),
     ensures
         r.tree.wf(), r.tree.root == Some(0usize), r.in_dim == self.in_dim, aff_shape_ok(r.a(), r.in_dim), out_all(r.a(), od),
+        // C05: cached witnesses of the receiving operand that were right stay right (copied nodes start without cache)
+        wit_inv(self.a(), self.a()) ==> wit_inv(r.a(), r.a()),
 //@hint start
         proof { reveal(pr_outer); }
 //@end
